@@ -1,5 +1,5 @@
 (* EntryEngine.v — entry points of the engine model (codes 300-499), instantiated with Expr.eval *)
-From RBQL Require Import Base Sx Value Like Expr Writers Join Agg Engine EntryLike.
+From RBQL Require Import Base Sx Value Like Expr Writers Join Agg Engine EntryLike Warn Pipe.
 From Coq Require Import QArith.
 
 Definition omap {T U} (o : option T) (f : T -> option U) : option U := match o with Some x => f x | None => None end.
@@ -183,9 +183,32 @@ Definition ep_chain_spec (x : sx) : sx :=
   | _ => ERR
   end.
 
+(* 310: field_count_warning  arg = L [A len ...]  ->  option (n1, r1, n2, r2) *)
+Definition ep_field_count (x : sx) : sx :=
+  match list_of_sx nat_of_sx x with
+  | Some lens => sx_of_option (fun '(n1, r1, n2, r2) => L [sx_of_nat n1; sx_of_nat r1; sx_of_nat n2; sx_of_nat r2]) (field_count_warning lens)
+  | None => ERR
+  end.
+
+(* 320: CSVWriter over a stream that breaks at its k-th write: arg = L [A k; sep; opt header line; L lines; A close] ->
+        L [L accepted texts; A number of stream ops (writes+flush/close); A broken] *)
+Definition ep_pipe (x : sx) : sx :=
+  match x with
+  | L [A k; sp; hd; ls; A cl] =>
+      match str_of_sx sp, option_of_sx str_of_sx hd, list_of_sx str_of_sx ls with
+      | Some sep, Some hdr, Some lines =>
+          let st := csv_run (breaks_at (N.to_nat k)) sep (negb (N.eqb cl 0)) hdr lines in
+          L [sx_of_list sx_of_str (accepted st); sx_of_nat (length (p_ops st)); sx_of_bool (p_broken st)]
+      | _, _, _ => ERR
+      end
+  | _ => ERR
+  end.
+
 Definition dispatch_engine (code : N) (x : sx) : option sx :=
   match code with
   | 300%N => Some (ep_run x)
   | 301%N => Some (ep_chain_spec x)
+  | 310%N => Some (ep_field_count x)
+  | 320%N => Some (ep_pipe x)
   | _ => None
   end.
